@@ -78,6 +78,10 @@ def main():
 
 
 NA = {}
+CLAIMS["C06"] = ("exploration",
+    "stateful PBT over clocked histories of adds, priority changes (immediate, lazy, extreme values), completions, queued successors and pop mode; every frame's top-to-bottom order is judged by a validity predicate against the effective priorities of a reference frame model",
+    "exact only for manual refresh with one client and n<=q (the render clock is owned by the harness); ties and the frame after a lazy change accept any order",
+    "model-based stateful property testing (rapid) with an order-validity oracle")
 CLAIMS["C19"] = ("exploration",
     "differential PBT: scripted underlying readers/writers of all four dynamic types consumed through the proxy and bare by the same generated consumer; caller-visible results, underlying-visible calls, delivered bytes, Close counts, fast-path offer, bar accounting and moving-average samples compared",
     "the bare twin plays the same script; sample durations are bounded from below only",
